@@ -5,7 +5,7 @@ cat > $OUT/spec.json <<EOS
 {"world":"w","property":"$1","tier":"quick","seed_from":$2,"seed_count":$3,"out":"$OUT/out.jsonl"$4}
 EOS
 rm -f $OUT/out.jsonl
-( cd $OUT && SIM_SPEC=$OUT/spec.json timeout 600 ./world.test -test.run '^TestSimWorld$' 2>&1 | tail -30 )
+( cd $OUT && rm -f race.* && GORACE="halt_on_error=0 log_path=$OUT/race" SIM_SPEC=$OUT/spec.json timeout 1800 ./world.test -test.run '^TestSimWorld$' 2>&1 | tail -30 )
 python3 - <<EOP
 import json
 n=0
